@@ -42,21 +42,21 @@ Print Assumptions C18_discipline_sound.
 (* the three historical defects, each switched back on in the same model, each with a schedule
    that races (so [races] is not vacuously empty and the model is fine enough to see them) *)
 Theorem C18_refuted_clear_handles :
-  races (trace (step {| v_clear_handles := true; v_log_serial := false; v_share_header := false; v_alias_buf := false |}) init
+  races (trace (step {| v_clear_handles := true; v_log_serial := false; v_share_header := false; v_alias_buf := false; v_share_merged := false |}) init
            [Boot; RRead 0; RJoinSend 0; MJoin true; RJoinAck; RPush 0; CCall 0; MWrite 0; RStop; MLeave; RStop2; WAct 0 true true])
   = [{| r_loc := LHandles; r_first := TReader; r_second := TWriter |}].
 Proof. vm_compute. reflexivity. Qed.
 Print Assumptions C18_refuted_clear_handles.
 
 Theorem C18_refuted_log_serial :
-  races (trace (step {| v_clear_handles := false; v_log_serial := true; v_share_header := false; v_alias_buf := false |}) init
+  races (trace (step {| v_clear_handles := false; v_log_serial := true; v_share_header := false; v_alias_buf := false; v_share_merged := false |}) init
            [Boot; RRead 0; RJoinSend 0; MJoin true; RJoinAck; RPush 0; WMsg 0 None; RStop])
   = [{| r_loc := LSerial; r_first := TWriter; r_second := TReader |}].
 Proof. vm_compute. reflexivity. Qed.
 Print Assumptions C18_refuted_log_serial.
 
 Theorem C18_refuted_share_header :
-  races (trace (step {| v_clear_handles := false; v_log_serial := false; v_share_header := true; v_alias_buf := false |}) init
+  races (trace (step {| v_clear_handles := false; v_log_serial := false; v_share_header := true; v_alias_buf := false; v_share_merged := false |}) init
            [Boot; RRead 0; RJoinSend 0; MJoin true; CCall 0; MWrite 0; WAct 0 true true; RJoinAck])
   = [{| r_loc := LMsg 0; r_first := TWriter; r_second := TReader |}].
 Proof. vm_compute. reflexivity. Qed.
@@ -67,11 +67,24 @@ Print Assumptions C18_refuted_share_header.
    memory LMsg n and the buffer LBuf are different locations BECAUSE parse() hands out copies (C09's theorems
    C09_content_is_own / C09_stable: a delivered message owns its bytes); the variant puts the aliasing back *)
 Theorem C18_refuted_alias_buffer :
-  races (trace (step {| v_clear_handles := false; v_log_serial := false; v_share_header := false; v_alias_buf := true |}) init
+  races (trace (step {| v_clear_handles := false; v_log_serial := false; v_share_header := false; v_alias_buf := true; v_share_merged := false |}) init
            [Boot; RRead 0; RPush 0; RRead 1; WMsg 0 None])
   = [{| r_loc := LBuf; r_first := TReader; r_second := TWriter |}].
 Proof. vm_compute. reflexivity. Qed.
 Print Assumptions C18_refuted_alias_buffer.
+
+(* the fifth and sixth (fixes a3fb0a0 and 4b6a3bd): two message objects sharing one header - the message merged from
+   sub-packages was built around the *JTMessage of the last sub-packet, the re-request record around the first
+   packet's header - so that the writer answering message 0 (Header.Encode rewrites reply id, serial, body length)
+   writes the header of message 1, which is still with the reader's callbacks.  One location per message object
+   (LMsg n) holds since those fixes; the variant puts the sharing back *)
+Theorem C18_refuted_shared_message_header :
+  races (trace (step {| v_clear_handles := false; v_log_serial := false; v_share_header := false; v_alias_buf := false;
+                        v_share_merged := true |}) init
+           [Boot; RRead 0; RPush 0; RRead 1; WMsg 0 None])
+  = [{| r_loc := LMsg 1; r_first := TReader; r_second := TWriter |}].
+Proof. vm_compute. reflexivity. Qed.
+Print Assumptions C18_refuted_shared_message_header.
 
 (* the same three schedules are race free in the repaired model (instances of C18_race_free, shown
    on concrete values) *)
@@ -201,7 +214,7 @@ Proof. vm_compute. repeat split. Qed.
 
 (* connection 1 with clear(c.handles) back in stop while connection 0 goes on: the race is in connection 1 *)
 Example C18_one_bad_connection :
-  nraces (trace (nstep {| v_clear_handles := true; v_log_serial := false; v_share_header := false; v_alias_buf := false |}) ninit one_bad_of_three)
+  nraces (trace (nstep {| v_clear_handles := true; v_log_serial := false; v_share_header := false; v_alias_buf := false; v_share_merged := false |}) ninit one_bad_of_three)
   = [{| gr_loc := NL 1 LHandles; gr_first := NT 1 TReader; gr_second := NT 1 TWriter |}].
 Proof. vm_compute. reflexivity. Qed.
 
